@@ -91,6 +91,16 @@ func c04Body(r *run.Rng) []rec.Op {
 	if r.Bool() {
 		ops = append(ops, rec.Op{K: rec.KRelArcTo, Sweep: true, F: [6]float32{1, 1, 0, 3, 3}})
 	}
+	if r.Chance(1, 4) {
+		// an arc that degenerates to a straight line (a radius that is zero or not a
+		// number): in a path that is not painted it must stay as silent as any other operation
+		rx, ry := float32(r.PickF(0, 0, 2, math.NaN())), float32(r.PickF(0, 3, 0, 1))
+		k := rec.KAbsArcTo
+		if r.Bool() {
+			k = rec.KRelArcTo
+		}
+		ops = append(ops, rec.Op{K: k, LargeArc: r.Bool(), Sweep: r.Bool(), F: [6]float32{rx, ry, 0.25, 5, 2}})
+	}
 	if r.Bool() {
 		ops = append(ops, rec.Op{K: rec.KClosePathRelMoveTo, F: [6]float32{1, 1}}, rec.Op{K: rec.KAbsQuadTo, F: [6]float32{1, 2, 3, 4}})
 	}
@@ -160,7 +170,35 @@ func c04Gradient(r *run.Rng, ops []rec.Op) []rec.Op {
 		ops = append(ops, rec.Op{K: rec.KSetCSel, Sel: uint8((cbase + r.Intn(nstops)) & 63)}, rec.Op{K: rec.KSetCReg, Col: gen.Color(r)}, rec.Op{K: rec.KSetCSel, Sel: uint8(sel)})
 	}
 	ops = append(ops, rec.Op{K: rec.KStartPath, Adj: adj, F: [6]float32{0, 0}})
-	return append(ops, c04Body(r)...)
+	ops = append(ops, c04Body(r)...)
+	if nstops >= 2 && r.Chance(1, 12) {
+		// The same gradient value fills another path after a long stretch of register
+		// writes (around the widths of 8-bit counters), one of which changed the
+		// first stop's colour: the second path shows the new colour.
+		n := r.Pick(254, 255, 256, 257, 511, 512, 513)
+		pathReg := (sel - int(adj)) & 63
+		other := -1
+		for k := 0; k < 64; k++ {
+			if k != pathReg && (k-cbase)&63 >= nstops {
+				other = k
+				break
+			}
+		}
+		if other >= 0 {
+			ops = append(ops, rec.Op{K: rec.KSetCSel, Sel: uint8(cbase)}, rec.Op{K: rec.KSetCReg, Col: ivg.RGBAColor(color.RGBA{0x11, 0x77, 0x33, 0xff})})
+			ops = append(ops, rec.Op{K: rec.KSetCSel, Sel: uint8(other)}, rec.Op{K: rec.KSetNSel, Sel: uint8((nbase + nstops + 1) & 63)})
+			for i := 1; i < n; i++ {
+				if i%3 == 0 && (nstops+7) < 64 {
+					ops = append(ops, rec.Op{K: rec.KSetNReg, F: [6]float32{float32(i)}}) // NREG[nbase+nstops+1]: neither an offset nor a matrix entry
+				} else {
+					ops = append(ops, rec.Op{K: rec.KSetCReg, Col: ivg.RGBAColor(color.RGBA{uint8(i), 0, 0, 0xff})})
+				}
+			}
+			ops = append(ops, rec.Op{K: rec.KSetCSel, Sel: uint8(sel)}, rec.Op{K: rec.KStartPath, Adj: adj, F: [6]float32{0, 0}})
+			ops = append(ops, c04Body(r)...)
+		}
+	}
+	return ops
 }
 
 func c04Program(c *run.Ctx, idx uint64) {
